@@ -311,6 +311,9 @@ func (e *Env) build(op *Op) (*Built, string) {
 		}
 		if v := e.ref(op.V, nil); v != nil {
 			m.Validator = v.ValAddr.String()
+			if op.Mode == "upper" { // bech32 allows an all-uppercase spelling of the same address
+				m.Validator = strings.ToUpper(m.Validator)
+			}
 		}
 		if op.W > 0 {
 			m.Description = &nodetypes.Description{Moniker: a.Name, Details: fmt.Sprintf("details-%d", op.W), Website: "https://example.org"}
